@@ -16,6 +16,8 @@ import (
 	"github.com/ja7ad/otp/verifharness/ev"
 	"github.com/ja7ad/otp/verifharness/irt"
 	"github.com/ja7ad/otp/verifharness/ref"
+	"github.com/ja7ad/otp/verifharness/sched"
+	"github.com/ja7ad/otp/verifharness/xplore"
 )
 
 func init() { register("C09", "model_checking", c09) }
@@ -261,6 +263,75 @@ func nonInterference(c c09Case, st *c09Stats) (obs, bad string, calls int) {
 	return obs, "", calls
 }
 
+// c09Overlap is a comparison class judged while ANOTHER validation of the same kind is paused somewhere inside its
+// own call (it may hold a lock, a scratch buffer, a pooled object): Choices fixes where.
+type c09Overlap struct {
+	Case    c09Case `json:"class"`
+	Choices []int   `json:"choices"`
+}
+
+// overlapRun executes one schedule: thread 0 validates a wrong code and is paused where the choices say; thread 1 then
+// submits, without being interrupted, the d wrong codes of the class.  Their traces must be identical.
+func overlapRun(c c09Case, x *xplore.X) (obs, bad string) {
+	c09Key = c09Keys[(c.Digits+c.Algo+c.Skew)%len(c09Keys)]
+	win := c09Window(c)
+	base := win[c.WinPos+len(win)/2]
+	var wrong []string
+	for j := 0; j < len(base); j++ {
+		for k := byte(1); k <= 9; k++ {
+			b := []byte(base)
+			b[j] = '0' + (b[j]-'0'+k)%10
+			if !inSet(string(b), win) {
+				wrong = append(wrong, string(b))
+				break
+			}
+		}
+	}
+	if len(wrong) < 2 {
+		return "skip", ""
+	}
+	irt.ResetPools()
+	silence(func() { try(func() { c09Call(c, wrong[0]) }) }) // warm-up outside the schedule
+	var traces [][]irt.Event
+	var verdicts []string
+	var rr sched.Result
+	silence(func() {
+		rr = irt.RunThreadsPaused(x, 50000, []func(){
+			func() { c09Call(c, wrong[len(wrong)-1]) },
+			func() {
+				for _, w := range wrong {
+					var v string
+					tr := irt.Traced(func() { v = c09Call(c, w) })
+					traces = append(traces, tr)
+					verdicts = append(verdicts, v)
+				}
+			},
+		})
+	})
+	for _, p := range rr.Panics {
+		if strings.Contains(p, "replay diverged") || strings.Contains(p, "no alternatives") {
+			return "", "NONDETERMINISM: " + p
+		}
+	}
+	if rr.Deadlock || rr.Overrun || len(rr.Panics) > 0 {
+		return "not judged", "" // deadlocks and panics under overlap are C11's and C10's concern
+	}
+	if len(traces) != len(wrong) {
+		return "not judged", ""
+	}
+	obs = fmt.Sprintf("%s|%d events", verdicts[0], len(traces[0]))
+	// the first call of thread 1 may find pools as the paused call left them; calls 1.. all start from what call 0 left
+	for j := 2; j < len(traces); j++ {
+		if verdicts[j] != verdicts[1] {
+			return obs, fmt.Sprintf("while another validation is paused: verdict depends on the mismatch position: position 1 gives %q, position %d gives %q", verdicts[1], j, verdicts[j])
+		}
+		if traceKey(traces[j]) != traceKey(traces[1]) {
+			return obs, fmt.Sprintf("while another validation is paused inside its call: execution trace depends on the position of the first wrong character (position 1 vs %d): %s", j, describeDiff(traces[1], traces[j]))
+		}
+	}
+	return obs, ""
+}
+
 func describeDiff(a, b []irt.Event) string {
 	d := firstDiff(a, b)
 	// locate the site for a comparison event
@@ -282,6 +353,12 @@ func describeDiff(a, b []irt.Event) string {
 func c09(r *ev.Run) {
 	r.Scenario("non-interference", func(raw []byte) (string, string) {
 		o, b, _ := nonInterference(unjson[c09Case](raw), nil)
+		return o, b
+	})
+	r.Scenario("non-interference-under-overlap", func(raw []byte) (string, string) {
+		c := unjson[c09Overlap](raw)
+		var o, b string
+		xplore.Run(c.Choices, func(x *xplore.X) { o, b = overlapRun(c.Case, x) })
 		return o, b
 	})
 	if ReplayOnly {
@@ -405,6 +482,40 @@ func c09(r *ev.Run) {
 		}
 	}
 	r.Set("grouped_spelling_classes", grouped)
+	// the comparison classes of the three library validators and the wasm-tagged one, judged while another validation
+	// is paused at each of its statements (a lock it holds, a scratch buffer it occupies must not select another,
+	// early-exit way of comparing)
+	{
+		var execs, pts int64
+		for _, en := range []string{"ValidateHOTP", "ValidateTOTP", "ValidateOCRA", "ValidateOTPWasm"} {
+			for _, d := range []int{6, 8} {
+				for _, sk := range []int{0, 1} {
+					if sk > 0 && (en == "ValidateOCRA" || en == "ValidateOTPWasm") {
+						continue
+					}
+					c := c09Case{Entry: en, Digits: d, Algo: (d + sk) % 3, Skew: sk, WinPos: -sk}
+					var lastBad, lastObs string
+					stx := xplore.Explore(xplore.Options{Bound: 1, MaxExec: 20000}, func(x *xplore.X) {
+						lastObs, lastBad = overlapRun(c, x)
+					}, func(x *xplore.X) bool {
+						if lastBad != "" {
+							r.Fail("non-interference-under-overlap", fmt.Sprintf("%s digits=%d skew=%d: %s", en, d, sk, lastBad), c09Overlap{c, x.Choices()}, "all wrong codes rejected with identical traces, whatever another validation is doing", lastObs+" "+lastBad)
+							return false
+						}
+						return true
+					})
+					execs += stx.Executions
+					pts += stx.Points
+					classes++
+					if stx.Capped {
+						r.NotExhaustive("overlap exploration of " + en + " capped")
+					}
+				}
+			}
+		}
+		calls += execs * 7
+		r.Set("overlap_schedules", map[string]any{"executions": execs, "scheduling_points": pts, "meaning": "one validation paused at each of its statements while the d wrong codes of the class are submitted by another thread"})
+	}
 	r.Eval(calls)
 	r.State(classes)
 	r.Transition(calls)
